@@ -492,6 +492,32 @@ fn evaluate(c: &Case) -> Outcome {
                             }
                             quantisers = Some((all, any));
                         }
+                        // the smaller levels: a source of one alpha value everywhere (opaque / transparent) has that
+                        // value in every level whatever the resampling filter (weights sum to one)
+                        if depth > 0 {
+                            let a0 = src_rgba.pixels().next().map(|p| p.0[3]).unwrap_or(255);
+                            if (a0 == 255 || a0 == 0) && src_rgba.pixels().all(|p| p.0[3] == a0) {
+                                let want = if a0 == 255 { ((1u16 << depth) - 1) as u8 } else { 0 };
+                                let n_levels = externals.as_ref().map(|e| e.len()).unwrap_or(lay.levels.len());
+                                for k in 1..n_levels {
+                                    let (lw, lh) = ((c.w >> k).max(1) as usize, (c.h >> k).max(1) as usize);
+                                    let lb: Option<&[u8]> = match &externals {
+                                        Some(ext) => ext.get(k).map(|v| v.as_slice()),
+                                        None => lay.levels.get(k).and_then(|r| bytes.get(r.clone())),
+                                    };
+                                    let Some(lb) = lb else { continue };
+                                    if let Ok(d) = blpcheck::decode_raw1(pal, lb, lw * lh, depth) {
+                                        if let Some(i) = d.q.iter().position(|q| *q != want) {
+                                            fails.push(Fail::new(
+                                                format!("raw1-mip-level-alpha-differs-from-uniform-source-alpha:a{depth}"),
+                                                format!("{tname} {}x{} level {k} ({lw}x{lh}) pixel {i}: every source pixel has alpha {a0}, stored {depth}-bit code {} (expected {want})", c.w, c.h, d.q[i]),
+                                            ));
+                                            break;
+                                        }
+                                    }
+                                }
+                            }
+                        }
                         // the library decoder: colour = palette entry selected by the stored index,
                         // alpha = expansion of the stored code
                         if let Some(img) = &level0 {
